@@ -227,41 +227,43 @@ theorem bound_fails_lying_pledge (x : ByteArray) (hx : x.size = 1000) :
 block is smaller than its content (`cSize < srcSize`; ZSTD_compressBlock_internal / ZSTD_isRLE guarantee it by emitting the block raw
 otherwise: `if (cSize == 0 …) cSize = ZSTD_noCompressBlock(…)`, with `cSize = 0` when `maxCSize = srcSize - minGain` is reached).
 `prev` = the resolved table decisions of the last block with sequences, threaded by `BlockEnc.nextTables` as `serializeBlocks2`
-threads it: the body of a block that describes its tables (`set_compressed`) counts the description, one that repeats them does not. -/
-def Shrinks (bs : List BlockChoice2) (rep : Rep.R) (prev : Option Tables := none) : Prop :=
+threads it: the body of a block that describes its tables (`set_compressed`) counts the description, one that repeats them does not;
+`hp` = the Huffman table of the last block that wrote one, threaded by `BlockEnc.nextHuf` (looked at by treeless literals only). -/
+def Shrinks (bs : List BlockChoice2) (rep : Rep.R) (prev : Option Tables := none) (hp : Option HufTab := none) : Prop :=
   match bs with
   | [] => True
-  | .raw _ :: rest => Shrinks rest rep prev
-  | .rle _ n :: rest => 1 ≤ n ∧ Shrinks rest rep prev
+  | .raw _ :: rest => Shrinks rest rep prev hp
+  | .rle _ n :: rest => 1 ≤ n ∧ Shrinks rest rep prev hp
   | .compressed c t lits raws :: rest =>
-    (serializeBlockBody c lits t (storeAll rep raws).1 (prev.getD {})).size < parseLen lits raws ∧
-      Shrinks rest (storeAll rep raws).2 (nextTables prev t (storeAll rep raws).1)
+    (serializeBlockBody c lits t (storeAll rep raws).1 (prev.getD {}) hp).size < parseLen lits raws ∧
+      Shrinks rest (storeAll rep raws).2 (nextTables prev t (storeAll rep raws).1) (nextHuf hp c lits)
 
 /-- content bytes a block list stands for -/
 def contentLen (bs : List BlockChoice2) : Nat := (bs.map BlockChoice2.len).sum
 
-theorem serializeBlocks2_size_le (x : ByteArray) : ∀ (bs : List BlockChoice2) (pos : Nat) (rep : Rep.R) (prev : Option Tables),
-    Shrinks bs rep prev → (serializeBlocks2 x bs pos rep prev).size ≤ 3 * bs.length + contentLen bs := by
+theorem serializeBlocks2_size_le (x : ByteArray) : ∀ (bs : List BlockChoice2) (pos : Nat) (rep : Rep.R) (prev : Option Tables)
+    (hp : Option HufTab),
+    Shrinks bs rep prev hp → (serializeBlocks2 x bs pos rep prev hp).size ≤ 3 * bs.length + contentLen bs := by
   intro bs
   induction bs with
-  | nil => intro _ _ _ _; simp [serializeBlocks2, contentLen]
+  | nil => intro _ _ _ _ _; simp [serializeBlocks2, contentLen]
   | cons c rest ih =>
-    intro pos rep prev hs
+    intro pos rep prev hp hs
     cases c with
     | raw n =>
-      have := ih (pos + n) rep prev hs
+      have := ih (pos + n) rep prev hp hs
       simp only [serializeBlocks2, noCompressBlock, ByteArray.size_append, FrameRT.blockHeader24_size, ByteArray.size_extract,
         List.length_cons, contentLen, List.map_cons, List.sum_cons, BlockChoice2.len] at this ⊢
       omega
     | rle b n =>
-      have := ih (pos + n) rep prev hs.2
+      have := ih (pos + n) rep prev hp hs.2
       have h1 := hs.1
       have hos : (ofList [b]).size = 1 := rfl
       simp only [serializeBlocks2, rleCompressBlock, ByteArray.size_append, FrameRT.blockHeader24_size, hos,
         List.length_cons, contentLen, List.map_cons, List.sum_cons, BlockChoice2.len] at this ⊢
       omega
     | compressed c t lits raws =>
-      have := ih (pos + parseLen lits raws) _ _ hs.2
+      have := ih (pos + parseLen lits raws) _ _ _ hs.2
       have h1 := hs.1
       simp only [serializeBlocks2, compressedBlock, ByteArray.size_append, FrameRT.blockHeader24_size,
         List.length_cons, contentLen, List.map_cons, List.sum_cons, BlockChoice2.len] at this ⊢
@@ -273,7 +275,7 @@ theorem serializeFrame2_size_le (a : HArgs) (bs : List BlockChoice2) (x : ByteAr
     (serializeFrame2 a bs x).size ≤
       (writeHeader a).length + contentLen bs + 3 * max 1 bs.length + (if a.checksum then 4 else 0) := by
   unfold serializeFrame2 epilogue
-  have := serializeBlocks2_size_le x bs 0 repStart none hs
+  have := serializeBlocks2_size_le x bs 0 repStart none none hs
   have hck : (if a.checksum = true then ofList (le4 ((XXH64.hashRange x 0 x.size).toNat &&& 0xFFFFFFFF)) else ByteArray.empty).size =
       if a.checksum then 4 else 0 := by
     cases a.checksum <;> rfl
